@@ -17,7 +17,7 @@
 (* InputFifo (C15), stated over ghost variables that record what student   *)
 (* code really wrote and read.                                             *)
 (***************************************************************************)
-EXTENDS Integers, Sequences, FiniteSets, TLC, Json
+EXTENDS Integers, Sequences, FiniteSets, TLC, Json, TextOps
 
 CONSTANTS EffTokens, MaxEff, Modes, FnModes, MaxFns, Depth, InputOps, Flags, Entries, TracerStyles
 
@@ -30,19 +30,6 @@ VARIABLES file,       \* [top |-> prog, fns |-> Seq(prog)]   prog = [effs |-> Se
           hist
 vars == <<file, pOut, pSleep, pMods, pTrace, patches, stdouts, raw, lines, ctxs, inputs, exc, fbs, status, defined,
           written, shares, clearedAt, q, consumed, hist>>
-
-(* ---------- text helpers: text = sequence of one-character strings ---------- *)
-IsWS(c) == c \in {" ", "\n", "\t"}
-RECURSIVE RStrip(_)
-RStrip(s) == IF s = <<>> THEN s ELSE IF IsWS(s[Len(s)]) THEN RStrip(SubSeq(s, 1, Len(s) - 1)) ELSE s
-RECURSIVE Split(_)
-Split(s) == IF \E i \in 1..Len(s) : s[i] = "\n"
-            THEN LET i == CHOOSE i \in 1..Len(s) : s[i] = "\n" /\ \A j \in 1..(i - 1) : s[j] # "\n"
-                 IN <<SubSeq(s, 1, i - 1)>> \o Split(SubSeq(s, i + 1, Len(s)))
-            ELSE <<s>>
-LinesOf(share) == LET parts == Split(RStrip(share)) IN [k \in 1..Len(parts) |-> RStrip(parts[k])]
-RECURSIVE Flatten(_)
-Flatten(ss) == IF ss = <<>> THEN <<>> ELSE Head(ss) \o Flatten(Tail(ss))
 
 (* ---------- effects ---------- *)
 \* what an effect writes to standard output, given the value input() returned (for "in")
